@@ -51,6 +51,7 @@ type vbHeaderSpec struct {
 	Kind   string `json:"kind"`
 	Height int    `json:"height"`
 	Gap    int    `json:"gap"` // minutes after the parent; 0 = derive from Work (1: 21 min, 2: 10 min)
+	Recent *bool  `json:"recent,omitempty"` // false: dated more than 24 h ago (absent = recent)
 }
 
 type vbUniverse struct {
@@ -58,6 +59,7 @@ type vbUniverse struct {
 	Checkpoints map[string]int `json:"checkpoints"`
 	NPeers      int            `json:"npeers"`
 	MaxBatch    int            `json:"max_batch_len"`
+	BaseHours   int            `json:"base_hours_ago"` // age of the genesis header (0 = 12 h)
 	AutoWork    bool           `json:"auto_work"`
 	Params      struct {
 		RetargetBlocks      int  `json:"retarget_blocks"`
@@ -171,7 +173,11 @@ func vbBuildChain(u *vbUniverse, now time.Time) (*vbChain, error) {
 	n := len(u.Headers)
 	c.hdr = make([]*wire.BlockHeader, n)
 	c.hash = make([]chainhash.Hash, n)
-	base := now.Add(-12 * time.Hour).Truncate(time.Second)
+	baseHours := 12
+	if u.BaseHours > 0 {
+		baseHours = u.BaseHours
+	}
+	base := now.Add(-time.Duration(baseHours) * time.Hour).Truncate(time.Second)
 
 	// genesis
 	gen := *chaincfg.RegressionNetParams.GenesisBlock
@@ -257,6 +263,14 @@ func vbBuildChain(u *vbUniverse, now time.Time) (*vbChain, error) {
 				return nil, fmt.Errorf("header %d: universe says work class %d but the rules require bits %08x",
 					i, s.Work, h.Bits)
 			}
+		}
+		// the universe's statement about which headers are younger than
+		// 24 h (BlockHeadersSynced) must be true of the mined header, with
+		// an hour to spare on either side
+		wantRecent := s.Recent == nil || *s.Recent
+		age := now.Sub(h.Timestamp)
+		if s.Kind != "future" && (wantRecent != (age < 24*time.Hour) || (age > 23*time.Hour && age < 25*time.Hour)) {
+			return nil, fmt.Errorf("header %d: universe says recent=%v but it is dated %s ago", i, wantRecent, age)
 		}
 		vbMine(h, valid)
 		c.hdr[i] = h
